@@ -4,6 +4,7 @@ package main
 
 import (
 	"crypto/sha256"
+	"encoding/binary"
 	"flag"
 	"fmt"
 	"math/rand"
@@ -140,9 +141,20 @@ func c11(args []string) error {
 				}
 				return a
 			}
+			// in half of the sequences the caller hands every message over in one buffer that it reuses for the next message (what a
+			// message arrives in is the caller's business; the verdict must not depend on it)
+			reuse := rng.Intn(2) == 0
+			var shared []byte
+			inBuf := func(mb []byte) []byte {
+				if !reuse {
+					return mb
+				}
+				shared = append(shared[:0], mb...)
+				return shared
+			}
 			verify := func(a hx.AbsSig, m hx.Msg) {
 				sig := w.Sig(a)
-				mb := w.Bytes(m)
+				mb := inBuf(w.Bytes(m))
 				key := obj{"m": mids.id(mb), "c": hx.IDs(sig.Participants()), "b": bids.id(sig.ToBytes())}
 				okU, _, _ := verdict(func() error { return au.Verify(sig, mb) })
 				okC, _, _ := verdict(func() error { return ac.Verify(sig, mb) })
@@ -205,10 +217,26 @@ func c11(args []string) error {
 						okU, _, _ := verdict(func() error { return au.BatchVerify(sig, batch) })
 						okC, _, _ := verdict(func() error { return ac.BatchVerify(sig, batch) })
 						o.emit(obj{"op": "batch", "n": n, "scheme": scheme, "sig": a, "batch": babs, "key": key, "vc": okC, "vu": okU, "lru": lru(key)})
+						if rng.Intn(3) == 0 {
+							// the same signature offered for ONE message: the byte string a batch is digested from (signer, length, message,
+							// in signer order).  Single and batch verification must not share remembered verdicts.
+							var raw []byte
+							for _, id := range bids2 {
+								mb := batch[hotstuff.ID(id)]
+								raw = append(raw, hotstuff.ID(id).ToBytes()...)
+								var ln [8]byte
+								binary.LittleEndian.PutUint64(ln[:], uint64(len(mb)))
+								raw = append(raw, ln[:]...)
+								raw = append(raw, mb...)
+							}
+							xU, _, _ := verdict(func() error { return au.Verify(sig, raw) })
+							xC, _, _ := verdict(func() error { return ac.Verify(sig, raw) })
+							o.emit(obj{"op": "xverify", "n": n, "scheme": scheme, "vc": xC, "vu": xU})
+						}
 					}
 				default: // sign with the cached authority, then verify it on both; and combine
 					m := msgs[rng.Intn(len(msgs))]
-					mb := w.Bytes(m)
+					mb := inBuf(w.Bytes(m))
 					sig, err := ac.Sign(mb)
 					if err != nil {
 						return err
